@@ -367,12 +367,13 @@ def ext (p : Order) (pi : α) (m : Mesh α) (L : Load α) (j : Nat) : α :=
   let a := if j = n - 1 then a + nat 2 * pi * L.Pe * m.Re else a
   if j = n ∧ L.endcap then a + pi * m.Re * m.Re * L.Pe else a
 
-/-- what the Gauss point `g` of the element `i` adds to the entry `j` of the residual -/
+/-- what the Gauss point `g` of the element `i` adds to the entry `j` of the residual (an entry receives
+at most one nodal force and, for `j = n`, the axial force per Gauss point, so that the order of the
+floating-point additions into `r[j]` is the order of the elements and of the Gauss points) -/
 def gaussForce (p : Order) (pi : α) (G : Gauss α) (m : Mesh α) (D : Stiff α) (u : Nat → α)
     (j i g : Nat) (acc : α) : α :=
   let s := stress nat p G m D u i g
-  let acc := foldRange (fun a acc => if p * i + a = j then acc + force nat p pi G m s i g a else acc)
-    acc (p + 1)
+  let acc := if p * i ≤ j ∧ j ≤ p * i + p then acc + force nat p pi G m s i g (j - p * i) else acc
   if j = nnodes p m then acc + axial nat p pi G m s i g else acc
 
 /-- entry `j` of the residual of `PipeTest::computeStiffnessMatrixAndResidual` -/
